@@ -13,7 +13,8 @@
 
 namespace sim {
 
-constexpr int kMaxTasks = 16;
+constexpr int kMaxTasks = 64;      // simulated threads per run, including threads the code under test creates
+constexpr int kMaxCallerTasks = 16; // caller threads of a workload (the property speaks of 2..16)
 
 enum Strategy : int {
   S_SERIAL = 0,   // run tasks to completion in index order
@@ -95,6 +96,7 @@ struct Config {
   Fault* faults = nullptr;  // `fired` is written back
   size_t n_faults = 0;
   size_t stack_bytes = 4u << 20;
+  bool track_memory = true; // false: plain memory accesses are neither events nor checked (preparation runs)
   // optional caller-provided switch log (e.g. in shared memory, so that it survives a crash of
   // the process that runs the simulation); the count is kept in *sw_count
   Switch* sw_buf = nullptr;
@@ -121,6 +123,8 @@ struct Result {
   uint64_t guard_block = 0;         // a task found a guard in progress and was blocked
   uint64_t preempt_in_init = 0;     // switches away from a task that was inside a static initialiser
   uint64_t mutex_block = 0;
+  uint64_t dynamic_threads = 0;     // threads created by the code under test inside the simulation
+  uint64_t daemon_threads = 0;      // of those: still waiting for something when every caller thread had finished
   uint64_t fault_fired[F_NKINDS] = {};
   uint64_t events_by_class[5] = {};
   uint64_t task_events[kMaxTasks] = {};
